@@ -195,11 +195,21 @@ def gen_case(rng):
             rng.shuffle(present)
             for j, pn in enumerate(chosen):
                 part_ids = present[j::len(chosen)] + ([rng.choice(ids)] if rng.random() < 0.3 else [])
-                calls.append(["objs", pn, part_ids, rng.random() < 0.5, rng.random() < 0.1, rng.choice(ID_KINDS)])
+                calls.append(["objs", pn, part_ids, rng.random() < 0.5, j > 0 and rng.random() < 0.35, rng.choice(ID_KINDS)])
         else:
             for pn in chosen:
                 calls.append(["objs", pn, [rng.choice(ids) for _ in range(rng.randint(0, 6))],
                               rng.random() < 0.5, rng.random() < 0.1, rng.choice(ID_KINDS)])
+    # a split part is referenced from another part by an aas-spec-split relationship (mostly)
+    for c in calls:
+        if c[0] == "objs":
+            while len(c) < 7:
+                c.append([] if len(c) == 6 else "list")
+    for c in calls:
+        if c[0] == "objs" and c[4]:
+            parents = [p for p in calls if p[0] == "objs" and not p[4]]
+            if parents and rng.random() < 0.85:
+                rng.choice(parents)[6].append(c[1])
     if rng.random() < 0.5:
         calls.insert(rng.randint(0, len(calls)), ["core", rng.randrange(3)])
         if rng.random() < 0.03:
@@ -249,7 +259,15 @@ def gen_case(rng):
     r = rng.random()
     f0b = [] if r < 0.45 else copy.deepcopy(f0) if r < 0.75 else \
         [[n, rng.randrange(len(CONTENTS)), t] for n, _, t in f0]
-    return {"objs": objs, "files": files, "calls": calls, "S0": s0, "F0": f0, "override": rng.random() < 0.5,
+    override = rng.random() < 0.5
+    # a part with split parts whose own objects are all in the receiving store already (nothing new in the parent,
+    # overriding off): its split parts must still be read
+    parents = [c for c in calls if c[0] == "objs" and not c[4] and len(c) > 6 and c[6]]
+    if parents and rng.random() < 0.6:
+        pids = set(rng.choice(parents)[2])
+        s0 = [dict(copy.deepcopy(o), tok=6 + rng.randint(0, 3)) for o in objs if o["id"] in pids]
+        override = False
+    return {"objs": objs, "files": files, "calls": calls, "S0": s0, "F0": f0, "override": override,
             "S0b": s0b, "F0b": f0b}
 
 
@@ -421,7 +439,8 @@ def coq_call(c):
     if c[0] == "aas":
         return f"WAas {ids(c[1])} {b(c[2])}"
     if c[0] == "objs":
-        return f"WObjs {coq_str(c[1])} {ids(c[2])} {b(c[3])} {b(c[4])}"
+        return (f"WObjs {coq_str(c[1])} {ids(c[2])} {b(c[3])} {b(c[4])} "
+                + coq_list(coq_str(t) for t in (c[6] if len(c) > 6 else [])))
     if c[0] == "core":
         return f"WCore {c[1]}%nat"
     return f"WThumb {coq_str(c[1])} {c[2]}%nat {c[3]}%nat"
@@ -483,10 +502,12 @@ def run_sdk(case):
     logging.disable(logging.CRITICAL)
     S = mk_store(model, case["objs"])
     F = mk_files(case["files"])
+    Sw = mk_store(model, case["objs"])          # the writer gets copies; S and F stay untouched for the oracle
+    Fw = mk_files(case["files"])
     S0 = mk_store(model, case["S0"])
     F0 = mk_files(case["F0"])
     res = {"model": model, "S": S, "F": F, "S0": S0, "F0": F0, "S0_objs": {o.id: o for o in S0}}
-    res["terms"] = (coq_list(coq_obj(model, o) for o in S), coq_list(coq_obj(model, o) for o in S0))
+    res["terms"] = (coq_list(coq_obj(model, o) for o in Sw), coq_list(coq_obj(model, o) for o in S0))
     res["F0_before"] = {n: (content_of(F0, n), F0.get_content_type(n)) for n in F0}
     S0b = mk_store(model, case.get("S0b", []))
     F0b = mk_files(case.get("F0b", []))
@@ -509,15 +530,29 @@ def run_sdk(case):
                     if c[0] == "aas":
                         it, order = make_ids(c[1], c[3] if len(c) > 3 else "list")
                         eff[k] = ["aas", order] + list(c[2:])
-                        w.write_aas(it, S, F, write_json=c[2])
+                        w.write_aas(it, Sw, Fw, write_json=c[2])
                     elif c[0] == "objs":
                         it, order = make_ids(c[2], c[5] if len(c) > 5 else "list")
                         eff[k] = ["objs", c[1], order] + list(c[3:])
-                        w.write_aas_objects(c[1], it, S, F, write_json=c[3], split_part=c[4])
+                        import pyecma376_2 as _p
+                        rels = [_p.OPCRelationship(f"s{j}", aasx.RELATIONSHIP_TYPE_AAS_SPEC_SPLIT, t, _p.OPCTargetMode.INTERNAL)
+                                for j, t in enumerate(c[6] if len(c) > 6 else [])]
+                        w.write_aas_objects(c[1], it, Sw, Fw, write_json=c[3], split_part=c[4],
+                                            additional_relationships=rels)
                     elif c[0] == "core":
-                        w.write_core_properties(cores()[c[1]])
+                        # what is handed over counts: the caller's object is changed right after the call
+                        cp_arg = copy.copy(cores()[c[1]])
+                        w.write_core_properties(cp_arg)
+                        cp_arg.creator, cp_arg.title, cp_arg.created = "changed after the call", "changed", None
                     else:
-                        w.write_thumbnail(c[1], bytearray(CONTENTS[c[2]]), CTYPES[c[3]])
+                        th_arg = bytearray(CONTENTS[c[2]])
+                        w.write_thumbnail(c[1], th_arg, CTYPES[c[3]])
+                        th_arg[:] = b"changed after the call"
+                # ... and so are the object store and the file container, before the writer is closed
+                for o in Sw:
+                    o.id_short = "changedAfterTheCall"
+                for n in list(Fw):
+                    Fw.delete_file(n)
             except Exception as e:
                 werr = e
                 try:
@@ -707,7 +742,19 @@ def expected_parts(case, res):
         elif c[0] == "objs":
             objs = {sid(i): byid[sid(i)] for i in c[2] if sid(i) in byid}
             parts.append((c[1], objs, c[4]))
-    return parts, None
+    # a split part is read right after the part that names it in an aas-spec-split relationship
+    byname = {pn: (pn, objs, split) for pn, objs, split in parts}
+    ordered, placed = [], set()
+    for c in case["calls"]:
+        if c[0] == "aas" or (c[0] == "objs" and not c[4]):
+            pn = ("/aasx/data.json" if c[2] else "/aasx/data.xml") if c[0] == "aas" else c[1]
+            ordered.append(byname[pn])
+            for t in (c[6] if c[0] == "objs" and len(c) > 6 else []):
+                if t in byname:
+                    ordered.append((t, byname[t][1], False))       # reached through the relationship: it is read
+                    placed.add(t)
+    ordered += [p for p in parts if p[2] and p[0] not in placed]    # written, never referenced: not read
+    return ordered, None
 
 
 def oracle(case, res):
@@ -959,6 +1006,58 @@ def oracle_all(case, res):
                           f"consecutive calls of one reader"))
         if any(vars(c) != vars(cps[0]) for c in cps):
             fails.append(("C08:core-properties:change-between-calls", "get_core_properties() answers differ between calls"))
+    fails.extend(chain_check(case, res))
+    return fails
+
+
+def chain_check(case, res):
+    """write -> read -> write -> read: the objects and files received by the first read are exported again with
+    write_aas() and read into an empty store / container; every File element the first read pointed at an extracted
+    file must still name a file with the same bytes and content type"""
+    from basyx.aas.adapter import aasx
+    model = res["model"]
+    if res["werr"] is not None or "open_err" in res or res.get("rerr") is not None or not res.get("ids"):
+        return []
+    S, F, S1, F1 = res["S"], res["F"], res["S0"], res["F0"]
+    shells = [o.id for o in S1 if isinstance(o, model.AssetAdministrationShell)]
+    json_ = next((c[2] if c[0] == "aas" else c[3] for c in case["calls"] if c[0] in ("aas", "objs")), False)
+    buf = io.BytesIO()
+    try:
+        with warnings.catch_warnings():
+            warnings.simplefilter("ignore")
+            with aasx.AASXWriter(buf) as w:
+                w.write_aas(shells, S1, F1, write_json=json_)
+        buf.seek(0)
+        S2, F2 = model.DictObjectStore(), aasx.DictSupplementaryFileContainer()
+        with aasx.AASXReader(buf) as r:
+            r.read_into(S2, F2)
+    except (ValueError, IndexError, TypeError, KeyError):
+        return []        # names that cannot be packed / references of the wrong kind: judged by the first round trip
+    s_by = {o.id: o for o in S}
+    fails = []
+    for i in sorted(res["ids"]):
+        o0, o1, o2 = s_by.get(i), S1.get(i), S2.get(i)
+        if not (isinstance(o0, model.Submodel) and isinstance(o1, model.Submodel) and isinstance(o2, model.Submodel)):
+            continue
+        n0, n1, n2 = file_nodes(jdoc(o0)), file_nodes(jdoc(o1)), file_nodes(jdoc(o2))
+        if [p for p, _ in n0] != [p for p, _ in n1] or [p for p, _ in n1] != [p for p, _ in n2]:
+            continue
+        names1 = [b.get("value") for _, b in n1]
+        for (p, a), (_, b), (_, c) in zip(n0, n1, n2):
+            v0, v1, v2 = a.get("value"), b.get("value"), c.get("value")
+            if v0 is None or not is_local(v0) or v0 not in F or v1 is None or v1 not in F1:
+                continue       # not a file the first read extracted
+            if is_local(v1) and (not legal_part(v1) or sum(1 for x in names1 if x and x.lower() == v1.lower()
+                                                            and x != v1) > 0):
+                continue       # known classes of the first round trip
+            want = (content_of(F1, v1), F1.get_content_type(v1))
+            got = (content_of(F2, v2), F2.get_content_type(v2)) if v2 is not None and v2 in F2 else None
+            if got != want:
+                fails.append(("C08:chain:file-lost-on-re-export",
+                              f"File {i}:{'/'.join(str(x) for x in p if isinstance(x, str))}: the first read stored the file as "
+                              f"{v1!r}; after exporting the received objects again and reading them it names {v2!r} = "
+                              f"{'nothing' if got is None else 'other bytes/content type'}"))
+                return fails
     return fails
 
 
@@ -1128,7 +1227,10 @@ def run(chk):
                            "dict view, generator, iterator or a single Identifier) with core properties "
                            "and thumbnail, empty or pre-populated receiving store/container, override on/off; every reader is used "
                            "again: get_core_properties()/get_thumbnail() twice before and once after each read, a second "
-                           "read_into() into another receiver (empty, equal or different); "
+                           "read_into() into another receiver (empty, equal or different); the caller's core-properties object, "
+                           "thumbnail bytes, object store and file container are changed after the writer calls and before "
+                           "close(); split parts with aas-spec-split relationships; the received objects and files are "
+                           "exported and read once more (write-read-write-read); "
                            "non-trivial = written, read back and at least one object read; distinct by the whole case")
 
 
